@@ -276,6 +276,11 @@ def run(repo: Repo, rep: Report, tier: str) -> None:
 
     sci = repo.cls(SYS, "SystematicLinearBlockCodeEncoder")
     n += rule_systematic_forward(rep, repo.method(sci, "forward"))
+    # the published generator / check matrix (syndrome of a clean codeword, Hamming's syndrome correction) follow the same
+    # layout: identity at information_set[i], parities on the ascending remaining positions (same rule as C01)
+    from .c01 import rule_systematic_matrix
+
+    n += rule_systematic_matrix(repo, rep)
     # "... and an all-zero syndrome": the published check matrix of the cyclic / BCH encoders annihilates what the
     # systematic encoder produces, for every information set (same layout rule as C01)
     from .c01 import rule_check_layout
